@@ -57,10 +57,14 @@ def fam_wiring(seed, big):
     # the numbers 0-2 (already "in place", or in the way of another stream)
     j = 0
     for closed, triples in (([0], [("pipe", "none", "none"), ("file:a", "none", "none"), ("rc:S", "none", "none"),
-                                   ("pipe", "pipe", "pipe"), ("pipe", "file:b", "merge"), ("file:a", "pipe", "none")]),
+                                   ("pipe", "pipe", "pipe"), ("pipe", "file:b", "merge"), ("file:a", "pipe", "none"),
+                                   # (a merge onto an INHERITED stream while another stream's end sits on / moves over 0)
+                                   ("pipe", "none", "merge"), ("pipe", "merge", "none"), ("file:a", "none", "merge"),
+                                   ("rc:S", "merge", "none"), ("dup:S", "none", "merge")]),
                             ([1], [("none", "pipe", "none"), ("none", "file:a", "none"), ("none", "pipe", "merge"),
                                    ("pipe", "pipe", "pipe"), ("none", "rc:S", "rc:S")]),
-                            ([2], [("none", "none", "pipe"), ("none", "none", "file:a"), ("none", "pipe", "pipe")]),
+                            ([2], [("none", "none", "pipe"), ("none", "none", "file:a"), ("none", "pipe", "pipe"),
+                                   ("pipe", "none", "pipe"), ("file:a", "none", "file:b")]),
                             ([0, 1, 2], [("pipe", "pipe", "pipe"), ("file:a", "file:b", "file:c"), ("pipe", "file:b", "merge"),
                                          ("file:a", "pipe", "pipe"), ("rc:S", "pipe", "merge")])):
         for (a, b, c) in triples:
